@@ -735,7 +735,28 @@ impl<'a> G<'a> {
                         Expr::Seq(Box::new(tail), Box::new(m))
                     }
                 };
-                let branch = match self.rng.below(4) {
+                let branch = match self.rng.below(7) {
+                    4 | 5 => {
+                        // multi-entry peeks that may match a prefix of the entries and then fail
+                        let peek = match self.rng.below(4) {
+                            0 => Expr::Ident("PEEK_ALL".into()),
+                            1 => Expr::PeekSlice(0, None),
+                            2 => Expr::PeekSlice(-2, None),
+                            _ => Expr::PeekSlice(0, Some(-1)),
+                        };
+                        let first = if self.rng.chance(1, 2) { peek } else { Expr::Seq(Box::new(peek), Box::new(self.terminal_consuming())) };
+                        let alt = self.terminal_consuming();
+                        match self.rng.below(3) {
+                            0 => Expr::Choice(Box::new(first), Box::new(alt)),
+                            1 => Expr::Seq(Box::new(Expr::Opt(Box::new(first))), Box::new(alt)),
+                            _ => Expr::Seq(Box::new(Expr::Rep(Box::new(Expr::Seq(Box::new(self.terminal_consuming()), Box::new(first))))), Box::new(alt)),
+                        }
+                    }
+                    6 => {
+                        let a = mutating(self);
+                        let b = Expr::Ident("PEEK_ALL".into());
+                        Expr::Choice(Box::new(b), Box::new(a))
+                    }
                     0 => {
                         let a = mutating(self);
                         let b = mutating(self);
